@@ -292,7 +292,7 @@ theorem replWrites_txs (s : Store) (k : Nat) (ia : List Nat) (hk : k % 3 = 1) (h
   rcases h with h | ⟨h, rfl⟩ <;>
   simp [replWrites, validate, replDelivery, route, replRoute, kindOf, skel, obsOfAns, seqAns, parseOk, contentFam,
     kindFam, isPaid, dcontentOf, derivedKey, rwKey, storeTx, txForKey, txValid, txFiltersForeign, txFiltersInvalid,
-    txMergesLocal, h, hd, hf, hv, hne', hne, Out.trace, rej, inst, written, writesOf, map_t, Function.comp_def]
+    txMergesLocal, txOrdDerived, h, hd, hf, hv, hne', hne, Out.trace, rej, inst, written, writesOf, map_t, Function.comp_def]
 
 theorem map_id_ops (l : List Nat) : (List.map (fun o => (⟨o, .v⟩ : OpD)) l).map (·.id) = l := by
   simp [List.map_map, Function.comp_def]
